@@ -31,16 +31,49 @@ pub fn real_reser(root: &str, text: &str) -> Result<String, String> {
     String::from_utf8(buf.into_inner().map_err(|e| e.to_string())?).map_err(|e| e.to_string())
 }
 
-fn typed_doc(rng: &mut Rng, root: &str, simple: bool, fill: u64) -> Nj {
+/// `[]` is both an empty `TimeWindow` list and an empty `TimeOffset` list of an optional break (untagged enum): the
+/// two values have the same text and the parser returns the first — the only value-level ambiguity of the schema
+fn canon_dbg(s: String) -> String {
+    s.replace("TimeOffset([])", "TimeWindow([])")
+}
+
+/// builds a typed value, returns its real serialisation (tokenised) and its `Debug` rendering
+fn typed_doc_dbg(rng: &mut Rng, root: &str, simple: bool, fill: u64) -> (Nj, String) {
     let mut g = G { rng, simple, fill };
     let mut buf = BufWriter::new(Vec::new());
-    match root {
-        "Problem" => serialize_problem(&g.problem(), &mut buf).unwrap(),
-        "Matrix" => serde_json::to_writer_pretty(&mut buf, &g.matrix()).unwrap(),
-        _ => serialize_solution(&g.solution(), &mut buf).unwrap(),
-    }
+    let dbg = match root {
+        "Problem" => {
+            let v = g.problem();
+            serialize_problem(&v, &mut buf).unwrap();
+            format!("{v:?}")
+        }
+        "Matrix" => {
+            let v = g.matrix();
+            serde_json::to_writer_pretty(&mut buf, &v).unwrap();
+            format!("{v:?}")
+        }
+        _ => {
+            let v = g.solution();
+            serialize_solution(&v, &mut buf).unwrap();
+            format!("{v:?}")
+        }
+    };
     let text = String::from_utf8(buf.into_inner().unwrap()).unwrap();
-    tokenize(&text).expect("real serialisation is not JSON")
+    (tokenize(&text).expect("real serialisation is not JSON"), canon_dbg(dbg))
+}
+
+fn typed_doc(rng: &mut Rng, root: &str, simple: bool, fill: u64) -> Nj {
+    typed_doc_dbg(rng, root, simple, fill).0
+}
+
+/// `Debug` rendering of the value the real parser returns for a JSON text
+fn real_parse_dbg(root: &str, text: &str) -> Option<String> {
+    match root {
+        "Problem" => deserialize_problem(BufReader::new(text.as_bytes())).ok().map(|v| canon_dbg(format!("{v:?}"))),
+        "Matrix" => deserialize_matrix(BufReader::new(text.as_bytes())).ok().map(|v| canon_dbg(format!("{v:?}"))),
+        "Solution" => deserialize_solution(BufReader::new(text.as_bytes())).ok().map(|v| canon_dbg(format!("{v:?}"))),
+        _ => None,
+    }
 }
 
 // --------------------------------------------------------------------------------------------------
@@ -261,8 +294,9 @@ pub fn gen_part1(rng: &mut Rng, tier: Tier, cases: &mut Vec<Value>) {
     for i in 0..(260 * scale) {
         let root = roots[i % 3];
         let fill = [0, 8, 4, 6, 2][(i / 3) % 5];
-        let doc = typed_doc(rng, root, true, fill);
-        cases.push(json!({"k": "rt", "root": root, "doc": doc.to_value()}));
+        let (doc, dbg) = typed_doc_dbg(rng, root, true, fill);
+        // `value`: Debug rendering of the typed value that was serialised (the parsed value must render the same)
+        cases.push(json!({"k": "rt", "root": root, "doc": doc.to_value(), "value": dbg}));
     }
     // arbitrary float bit patterns: real side only, 1 ulp slack
     for i in 0..(60 * scale) {
@@ -317,7 +351,12 @@ pub fn exec(case: &Value) -> Value {
                 Ok(t3) => tokenize(&t3).ok().as_ref() == Some(&reser),
                 Err(_) => false,
             };
-            json!({"ok": true, "reser": reser.to_value(), "idem": idem})
+            let mut out = json!({"ok": true, "reser": reser.to_value(), "idem": idem});
+            if let Some(dbg) = case.get("value").and_then(|v| v.as_str()) {
+                // parse(ser d) == d, compared through the derived Debug rendering (real side only)
+                out["value_ok"] = json!(real_parse_dbg(root, &text).as_deref() == Some(dbg));
+            }
+            out
         }
     }
 }
